@@ -124,7 +124,12 @@ def field_wind(field, p, lat, lon, hour, day, grid):
         return 0.0, 0.0
     if typ == 'uniform':
         th = math.radians(field['dir'] + 15.0 * hour + 97.0 * day)
-        return field['W'] * math.sin(th), field['W'] * math.cos(th)
+        u, v = field['W'] * math.sin(th), field['W'] * math.cos(th)
+        if field.get('quant'):
+            # packed files: the components are whole multiples of the packing step, so packing is lossless
+            s = field['quant']
+            u, v = round(u / s) * s, round(v / s) * s
+        return u, v
     if typ == 'affine':
         pn = (p - grid['pref']) / grid['pspan']
         an = (lat - grid['latref']) / grid['latspan']
@@ -208,7 +213,13 @@ def write_day(path, case, day, date):
             coords['valid_time'] = pd.Timestamp(date) + pd.Timedelta(hours=12)
     ds = xr.Dataset({'u': (dims, U), 'v': (dims, V), 't': (dims, T)}, coords=coords,
                     attrs={'Conventions': 'CF-1.7', 'institution': 'AEIC verification harness'})
-    ds.to_netcdf(path)
+    enc = None
+    if case['field'].get('quant'):
+        # CF packing as used by distributed reanalysis files: int16 counts with scale_factor/add_offset/_FillValue
+        s = case['field']['quant']
+        enc = {k: {'dtype': 'int16', 'scale_factor': s, 'add_offset': off, '_FillValue': -32767}
+               for k, off in (('u', 3.0), ('v', -2.0))}
+    ds.to_netcdf(path, encoding=enc)
     ds.close()
     return U, V, pl, lat, lon, gc
 
@@ -249,8 +260,11 @@ def field_desc(draw, typ):
     if typ == 'zero':
         return {'type': 'zero'}
     if typ == 'uniform':
-        return {'type': 'uniform', 'W': draw(st.one_of(st.floats(0.5, 120.0), st.sampled_from([20.0, 120.0]))),
-                'dir': draw(HEADINGS)}
+        f = {'type': 'uniform', 'W': draw(st.one_of(st.floats(0.5, 120.0), st.sampled_from([20.0, 120.0]))),
+             'dir': draw(HEADINGS)}
+        if draw(st.integers(0, 2)) == 0:
+            f['quant'] = 2.0 ** -6
+        return f
     if typ == 'arbitrary':
         return {'type': 'arbitrary', 'amp': draw(st.floats(5.0, 80.0)), 'phase': draw(st.floats(0.0, 6.0))}
     cu = [draw(st.floats(-40.0, 40.0)), draw(COEF), draw(COEF), draw(COEF), draw(HOURCOEF)]
@@ -275,6 +289,8 @@ def query_desc(draw, ftype):
         'tas': draw(st.one_of(st.floats(50.0, 300.0), st.floats(1.0, 350.0), st.sampled_from([200.0]))),
         'via': draw(st.sampled_from(['azimuth', 'azimuth', 'point'])),
     }
+    if draw(st.integers(0, 3)) == 0:
+        q['int_alt'] = True
     if ftype in ('uniform', 'affine') and draw(st.integers(0, 2)) == 0:
         # heading relative to the local wind direction: 0 = pure tailwind, 180 = pure headwind
         q['hrel'] = draw(st.sampled_from([0.0, 0.0, 180.0, 180.0, 90.0, 270.0]))
@@ -455,7 +471,11 @@ class WeatherCheck:
         pmin, pmax = float(pl.min()), float(pl.max())
         p_target = pmin + q['pf'] * (pmax - pmin)
         alt = isa_altitude(p_target * 100.0)
-        p = isa_pressure(alt) / 100.0
+        if q.get('int_alt') and 0.01 <= q['pf'] <= 0.99:
+            # altitude handed over as a whole number of metres in an integer
+            alt = int(round(alt))
+            self.ctx.label('altitude.integer')
+        p = isa_pressure(float(alt)) / 100.0
         return {'lat': la, 'lon': lo, 'alt': alt, 'p': p, 'latc': lac, 'lonc': loc, 'pmin': pmin, 'pmax': pmax}
 
     def query(self, g, q):
@@ -658,7 +678,7 @@ class WeatherCheck:
         ctx.label('clause.rotation')
         if all(o[0] == 'ok' for o in out):
             a, b = out[0][1], out[1][1]
-            if abs(a - b) > 1e-8 * (rot['tas'] + field['W'] + 1.0):
+            if not field.get('quant') and abs(a - b) > 1e-8 * (rot['tas'] + field['W'] + 1.0):
                 _fail(ctx, 'gs.rotation', 'mismatch', WHERE, 'uniform_field',
                          f'rotating heading and wind together changed the ground speed: {out}')
         if (out[0][2] - out[1][2]) % 360.0 != 0.0 and field['W'] > 0:
@@ -674,6 +694,7 @@ def body(ctx, case):
         return
     ctx.case(case)
     ctx.label('file.field.' + case['field']['type'], 'file.time_axis.' + case['time_axis'],
+              'file.packed_int16' if case['field'].get('quant') else 'file.float64',
               'file.two_days' if case['two_days'] else 'file.one_day',
               'file.lat_descending' if case['grid']['lat_desc'] else 'file.lat_ascending')
     chk = WeatherCheck(ctx, case)
